@@ -76,7 +76,10 @@ def run_chunk(exe, cases, workdir, tag):
         idx = min(nfresh, len(cmds) - 1)
         where = "incremental" if nresp == nfresh else "fresh"
         how = "timeout" if (rc == 4 or rc == 124 or "TIMEOUT" in out[-200:]) else "crash rc=%d %s" % (rc, (err or "").strip()[-200:])
-        incidents.append((bad, idx, where, how))
+        # root-cause probe lines printed before each command ("b risk 1"): did any query (or the hanging command) start from a risky state?
+        risks = [l.endswith(" 1") for l in produced if l.startswith("b risk")]
+        risky = any(r and (i < len(cmds)) and cmds[i].split(" ")[0] in ("solve", "issat", "fpoint", "opoint", "oval") for i, r in enumerate(risks))
+        incidents.append((bad, idx, where, how, risky))
         todo = todo[k + 1:]
     return kept, obs, incidents
 
@@ -150,6 +153,12 @@ def classify(case_fails):
     info["unbounded_relaxation_reported_unfeasible"] = bool(
         info["ref"] == "UNB" and info["relax"] == "UNB" and info["integer_variables"] and wrong_unf and
         any(f["feats"].get("got") == "UNF" or f["kind"] == "state/UNSATISFIABLE" for f in at))
+    #     same, when the reference could not decide the MIP: the relaxation is unbounded, solve() says UNFEASIBLE and
+    #     is_satisfiable() on the same data says satisfiable
+    if (info["ref"] == "?" and info["relax"] == "UNB" and info["integer_variables"] and
+            all(f["kind"] in ("fresh/solve-vs-sat", "incr-vs-fresh/solve") for f in at) and
+            all(f["feats"].get("solve") == "UNF" and f["feats"].get("sat") == "true" for f in at if f["kind"] == "fresh/solve-vs-sat")):
+        info["unbounded_relaxation_reported_unfeasible"] = True
     # (2) incremental-only wrong optimum: the fresh object is right, the incremental object reports an infeasible / suboptimal point
     info["incremental_only"] = bool(ft.get("fresh_agrees_with_ref") == "true" and
                                     all(not f["kind"].startswith("fresh/") for f in at))
@@ -252,13 +261,13 @@ def run(chk):
                            "theorem": "bnb_sound + claim_check_sound (reference answer) ; machine_answers_correct / incremental_equals_fresh",
                            "replay_cmd": "./check C06 --replay <this file>"})
     os.makedirs(work, exist_ok=True)
-    for (case, idx, where, how) in out["incidents"]:
+    for (case, idx, where, how, risky) in out["incidents"]:
         df = data_features(judge, case, idx + 1, work)
         info = {"kinds": "hang" if how == "timeout" else "crash", "where": where, "detail": how,
                 "line": case[1 + idx] if 1 + idx < len(case) else "?",
                 "integer_variables": df.get("ints", "0") != "0", "relaxation_region_bounded": df.get("relaxation_region_bounded"),
-                "ref": (df.get("ref") or "").split(":")[0]}
-        census[(info["kinds"], where, info["integer_variables"], info["relaxation_region_bounded"])] += 1
+                "ref": (df.get("ref") or "").split(":")[0], "stale_last_generator_slack_made_basic": risky}
+        census[(info["kinds"], where, info["integer_variables"], info["relaxation_region_bounded"], "tainted" if risky else "")] += 1
         chk.failure(info, {"case": case, "step": idx + 1, "how": how, "features": df})
     shutil.rmtree(work, ignore_errors=True)
     chk.extra["failure_census"] = {"|".join(str(x) for x in k): v for k, v in sorted(census.items(), key=lambda kv: -kv[1])}
